@@ -116,6 +116,8 @@ class PathState:
         self.key_atoms = set()     # atoms that are chunk keys by precondition (the chunk being freed)
         self.rel_atoms = set()     # released[...] atoms seen (entries of `released` are chunk keys by invariant)
         self.positive = []         # Lins known to be > 0 from strict path inequalities
+        self.nonneg = []           # Lins known to be >= 0 (non-strict inequalities)
+        self.nonzero = []          # Lins known to be != 0 (failed equality tests)
 
     # ---- keys
     def find_key(self, k: Lin):
@@ -186,6 +188,23 @@ def run_path(path, q, params):
             return a + b if isinstance(e.op, ast.Add) else a - b
         if isinstance(e, ast.UnaryOp) and isinstance(e.op, ast.USub):
             return Lin() - ev(e.operand)
+        if isinstance(e, ast.Call) and cz(e.func) == 'self.chunks.pop' and len(e.args) == 1 and not e.keywords:
+            k = ev(e.args[0])       # value = size of the chunk, the entry is deleted
+            r = st.touch(k)
+            v = st.size[r][1]
+            st.deleted.append(st.size[r][0])
+            del st.size[r]
+            st.trace.append(f'pop chunks[{k}]')
+            return v
+        if isinstance(e, ast.Call) and cz(e.func) == 'self.released.pop' and len(e.args) <= 1 and not e.keywords:
+            sl = e.args[0] if e.args else ast.UnaryOp(op=ast.USub(), operand=ast.Constant(value=1))
+            a = f'released[{entry_text(sl)}]'
+            st.rel_atoms.add(a)
+            et = entry_text(sl)
+            st.rel_removed.add(et)
+            st.rel_inserted = [(k, ee) for k, ee in st.rel_inserted if ee != et]
+            st.trace.append(f'pop released[{et}]')
+            return sym(a)
         raise ModelError(f'{q}: expression outside the linear subset: {cz(e)[:60]}')
 
     def entry_text(sl):
@@ -214,6 +233,17 @@ def run_path(path, q, params):
                     st.positive.append(a - b)
                 elif (isinstance(op, ast.Lt) and pol) or (isinstance(op, ast.GtE) and not pol):
                     st.positive.append(b - a)
+                elif (isinstance(op, ast.GtE) and pol) or (isinstance(op, ast.Lt) and not pol):
+                    st.nonneg.append(a - b)
+                elif (isinstance(op, ast.LtE) and pol) or (isinstance(op, ast.Gt) and not pol):
+                    st.nonneg.append(b - a)
+                return
+            if (isinstance(op, ast.Eq) and not pol) or (isinstance(op, ast.NotEq) and pol):
+                try:
+                    a, b = ev(test.left), ev(test.comparators[0])
+                except ModelError:
+                    return
+                st.nonzero.append(a - b)
                 return
             if (isinstance(op, ast.Eq) and pol) or (isinstance(op, ast.NotEq) and not pol):
                 try:
@@ -245,6 +275,9 @@ def run_path(path, q, params):
                 st.rel_alias[repr(st.env[v])] = i
             else:
                 raise ModelError(f'{q}: loop over {cz(lp.iter)} outside the modelled subset')
+            continue
+        if kind in ('continue', 'break'):
+            st.trace.append(kind)
             continue
         if kind == 'ret':
             r = item[1]
@@ -279,6 +312,14 @@ def run_path(path, q, params):
                 if not is_positive(st, v):
                     st.problems.append(('tiling', f'chunks[{st.eqs.reduce(k)}] = {st.eqs.reduce(v)}: the new size is not provably positive on this path (a zero or negative chunk overlaps its neighbour)'))
                 st.trace.append(f'chunks[{k}] = {v}')
+                continue
+            if isinstance(tg, ast.Attribute) and cz(tg) == 'self.current_size':
+                v = ev(s.value)
+                old_delta = st.cs_delta
+                st.cs_delta = v - sym('current_size')
+                if not is_positive(st, old_delta - st.cs_delta) and not (old_delta - st.cs_delta).is_zero():
+                    st.grew_since_max = True   # not provably a shrink
+                st.trace.append(cz(s))
                 continue
             if isinstance(tg, ast.Attribute) and cz(tg) == 'self.max_size':
                 if cz(s.value) in ('max(self.max_size,self.current_size)', 'max(self.current_size,self.max_size)'):
@@ -318,6 +359,9 @@ def run_path(path, q, params):
                 else:
                     raise ModelError(f'{q}: unexpected delete {cz(s)}')
             continue
+        if isinstance(s, ast.Expr) and isinstance(s.value, ast.Call) and cz(s.value.func) in ('self.chunks.pop', 'self.released.pop'):
+            ev(s.value)
+            continue
         if isinstance(s, ast.Expr) and isinstance(s.value, ast.Call) and cz(s.value.func) == 'insort_left' and cz(s.value.args[0]) == 'self.released':
             k = ev(s.value.args[1])
             # loc is not in released before; bisect(released, loc) == bisect_left -> it lands at index released_idx
@@ -341,7 +385,12 @@ def is_positive(st, v):
         return bool(x.d) and all(c > 0 and (a == 'size' or a.startswith('size[')) for a, c in x.d.items())
     if allpos(r):
         return True
-    for p in st.positive:
+    pos = list(st.positive)
+    for p in st.nonneg:  # x >= 0 and x != 0 (either sign of the recorded difference)  =>  x > 0
+        for z in st.nonzero:
+            if st.eqs.reduce(p - z).is_zero() or st.eqs.reduce(p + z).is_zero():
+                pos.append(p)
+    for p in pos:
         d = st.eqs.reduce(v - p)
         if d.is_zero() or allpos(d):
             return True
